@@ -448,23 +448,25 @@ def program_equivalence(prog1, prog2, compare_params=True, atol=1e-6, rtol=0):
         # relabel the DAG nodes to integers
         circuit.append(nx.convert_node_labels_to_integers(G))
 
-        # ``CXgate`` and ``BSgate`` are not symmetric with respect to permuting the order of the two
-        # modes it acts on; i.e., the order of the wires matter
+        # An operation is matched on the wires it acts on, in order, and on its inverse flag.
+        # A ``CXgate`` with parameter 0 and a symmetric ``BSgate`` are symmetric with respect to
+        # permuting the two modes they act on; i.e., for them the order of the wires doesn't matter
         wire_mapping = {}
         for i, n in enumerate(G.nodes()):
-            # not a ``CXgate`` or a ``BSgate``, order of wires doesn't matter
-            wire_mapping[i] = 0
+            wires = [j.ind for j in n.reg]
 
             if n.op.__class__.__name__ == "CXgate":
-                # if the ``CXgate`` parameter is not 0, order matters
-                if not np.allclose(n.op.p[0], 0):
-                    wire_mapping[i] = [j.ind for j in n.reg]
+                # if the ``CXgate`` parameter is 0, order doesn't matter
+                if np.allclose(n.op.p[0], 0):
+                    wires = sorted(wires)
 
             elif n.op.__class__.__name__ == "BSgate":
-                # if the beamsplitter is not symmetric, order matters
+                # if the beamsplitter is symmetric, order doesn't matter
                 bs_params = [j % np.pi for j in par_evaluate(n.op.p)]
-                if not np.allclose(bs_params, [np.pi / 4, np.pi / 2]):
-                    wire_mapping[i] = [j.ind for j in n.reg]
+                if np.allclose(bs_params, [np.pi / 4, np.pi / 2]):
+                    wires = sorted(wires)
+
+            wire_mapping[i] = (wires, getattr(n.op, "dagger", False))
 
         # add node attributes to store the operation wires
         nx.set_node_attributes(circuit[-1], wire_mapping, name="w")
